@@ -36,10 +36,11 @@ type c20Case struct {
 	Links map[string]string `json:"links,omitempty"`
 	Dirs  []string          `json:"dirs,omitempty"`
 	Env   map[string]string `json:"env,omitempty"`
-	Type  string            `json:"type"`  // ASA IOS Linux NSX PAN-OS
-	Test  string            `json:"test"`  // file:title the case is derived from
-	Mut   string            `json:"mut"`   // description of the mutation
-	Class string            `json:"class"` // mutation class (for the distribution)
+	HTTP  map[string]string `json:"http,omitempty"` // answers of the simulated NSX / PAN-OS device (httpsim.go)
+	Type  string            `json:"type"`           // ASA IOS Linux NSX PAN-OS
+	Test  string            `json:"test"`           // file:title the case is derived from
+	Mut   string            `json:"mut"`            // description of the mutation
+	Class string            `json:"class"`          // mutation class (for the distribution)
 }
 
 type c20Outcome struct {
@@ -48,7 +49,7 @@ type c20Outcome struct {
 	Kind    string `json:"kind,omitempty"`    // of the panic: from the VALUE (runtime.Error or not), see panicClass
 	Msg     string `json:"msg,omitempty"`     // class of the panic message (no input text, no numbers)
 	Details string `json:"details,omitempty"` // do-approve: content of the log file named in "details in FILE"
-	Where   string `json:"where,omitempty"` // first frame of the module below the panic
+	Where   string `json:"where,omitempty"`   // first frame of the module below the panic
 	Stack   string `json:"stack,omitempty"`
 	Stdout  string `json:"stdout,omitempty"`
 	Stderr  string `json:"stderr,omitempty"`
@@ -77,6 +78,9 @@ func (c *c20Case) canon() string {
 	}
 	for k, v := range c.Env {
 		extra = append(extra, "env "+k+"="+v)
+	}
+	for k, v := range c.HTTP {
+		extra = append(extra, "http "+k+"="+v)
 	}
 	sort.Strings(extra)
 	for _, x := range extra {
@@ -230,6 +234,12 @@ func runInProcess(dir string, c *c20Case) c20Outcome {
 	os.Unsetenv("TEST_TIME")
 	for k, v := range c.Env {
 		os.Setenv(k, strings.NewReplacer("$DIR", dir, "$REPO", os.Getenv("C20_REPO")).Replace(v))
+	}
+	if len(c.HTTP) > 0 {
+		srv := startHTTPSim(c)
+		defer srv.Close()
+		os.Setenv("SIMULATE_ROUTER", srv.URL)
+		defer os.Unsetenv("SIMULATE_ROUTER")
 	}
 	var mainFunc func() int
 	switch c.Prog {
